@@ -1,3 +1,4 @@
+import MdsVerif.Gen.Mapset
 /-!
 # Executable model of `mapset/mapset.go` (core Lean only)
 
@@ -119,28 +120,32 @@ def pop (s : MSet α) (hint : α) : MSet α × α :=
   | [] => (s, default)
   | x :: _ => (delete s x, x)
 
+/-! The size-based shortcut conditions of the five predicates below are definitions of
+`MdsVerif.Gen.Mapset`, regenerated from mapset/mapset.go on every run by `extract/mapset.go`
+(DESIGN.md §3.1); `Props.C18.C18_current` pins them. -/
+
 /-- `Intersects`: iterate the smaller operand, probe the larger -/
 def intersects (s t : MSet α) : Bool :=
-  let (lo, hi) := if len s > len t then (t, s) else (s, t)
+  let (lo, hi) := if Gen.Mapset.intersectsSwaps (len s) (len t) then (t, s) else (s, t)
   (elems lo).any (has hi)
 
 /-- `HasAll(ts...)` -/
 def hasAll (s : MSet α) (ts : List α) : Bool :=
-  if len s = 0 then ts.length == 0 else ts.all (has s)
+  if Gen.Mapset.hasAllEmpty (len s) then Gen.Mapset.hasAllEmptyResult ts.length else ts.all (has s)
 
 /-- `HasAny(ts...)` -/
 def hasAny (s : MSet α) (ts : List α) : Bool :=
-  if len s = 0 then false else ts.any (has s)
+  if Gen.Mapset.hasAnyEmpty (len s) then false else ts.any (has s)
 
 /-- `IsSubset` -/
 def isSubset (s t : MSet α) : Bool :=
-  if len s = 0 then true
-  else if len s > len t then false
+  if Gen.Mapset.isSubsetEmpty (len s) then true
+  else if Gen.Mapset.isSubsetTooBig (len s) (len t) then false
   else (elems s).all (has t)
 
 /-- `Equals` -/
 def equals (s t : MSet α) : Bool :=
-  if len s ≠ len t then false else (elems s).all (has t)
+  if Gen.Mapset.equalsDiffer (len s) (len t) then false else (elems s).all (has t)
 
 /-- `Append(vs)`; a Go slice is `none` (nil) or `some elements` -/
 def append (s : MSet α) (vs : Option (List α)) (hint : List α) : Option (List α) :=
